@@ -277,6 +277,17 @@ X_BitFwd(e) ==
        /\ Cardinality(AllPairs(e.r)) = SumLens(e.r)
        /\ AllPairs(e.r) = Exp_BitFwd(e)
        /\ \A p \in AllPairs(e.r) : 0 <= p[2] /\ p[2] <= Pow2(e.a.vz) - 1     \* always inside the subdivision
+\* several voxels at once (nested, overlapping, repeated): the union of their cells, each pair once
+Exp_BitFwdList(e) ==
+  UNION {{<<QuadOfBits(t[1], t[2]), k>> :
+            t \in HorizontalZoomBits(e.a.ids[i][2], e.a.ids[i][3], e.a.hz),
+            k \in BitCell(e.a.los[i], e.a.vz, e.a.mn, e.a.mx)..BitCell(e.a.his[i], e.a.vz, e.a.mn, e.a.mx)} :
+         i \in 1..Len(e.a.ids)}
+X_BitFwdList(e) ==
+  /\ Ok(e)
+  /\ \A i \in 1..Len(e.r) : e.r[i].hz = e.a.hz /\ e.r[i].vz = e.a.vz /\ e.r[i].echo
+  /\ Cardinality(AllPairs(e.r)) = SumLens(e.r)
+  /\ AllPairs(e.r) = Exp_BitFwdList(e)
 \* high subdivision zooms (13..35): the driver gives the cell height instead of the range end
 Exp_BitFwdHi(e) ==
   {<<QuadOfBits(t[1], t[2]), k>> :
@@ -445,6 +456,7 @@ Explains(e) ==
       [] e.op = "TilesToExt"           -> X_TilesToExt(e)
       [] e.op = "TilesToSp"            -> X_TilesToSp(e)
       [] e.op = "BitFwd"               -> X_BitFwd(e)
+      [] e.op = "BitFwdList"           -> X_BitFwdList(e)
       [] e.op = "BitBack"              -> X_BitBack(e)
       [] e.op = "BitFwdHi"             -> X_BitFwdHi(e)
       [] e.op = "BitBackHi"            -> X_BitBackHi(e)
@@ -515,6 +527,7 @@ Expected(e) ==
     [] e.op = "TilesToExt"           -> IF TilesValid(e) THEN Exp_TilesToExt(e) ELSE "error, no partial result"
     [] e.op = "TilesToSp"            -> IF TilesValid(e) THEN Exp_TilesToSp(e) ELSE "error, no partial result"
     [] e.op = "BitFwd"               -> Exp_BitFwd(e)
+    [] e.op = "BitFwdList"           -> Exp_BitFwdList(e)
     [] e.op = "BitBack"              -> Exp_BitBack(e)
     [] e.op = "BitFwdHi"             -> Exp_BitFwdHi(e)
     [] e.op = "BitBackHi"            -> Exp_BitBackHi(e)
